@@ -613,110 +613,125 @@ class PyEval:
                         new = ('comp', 'listcomp', sub(elems[0]), ((ast.unparse(st.target), it, ()),))
             env[name] = new
 
+    def _compile_pattern(self, pat, subj, env, ev):
+        """a match pattern against the value `subj` -> alternatives [(conds, bindings)]: class patterns are `isinstance` atoms with the
+        sub-patterns applied to the fields, sequence patterns apply element-wise (to the elements of a display, or to the items of an
+        opaque value whose length is tested), literals are equalities (booleans: the element itself as the atom), or-patterns
+        contribute their alternatives in order"""
+        if isinstance(pat, ast.MatchAs):
+            if pat.pattern is None:
+                return [([], {pat.name: subj} if pat.name else {})]
+            return [(c, dict(b, **({pat.name: subj} if pat.name else {}))) for c, b in self._compile_pattern(pat.pattern, subj, env, ev)]
+        if isinstance(pat, ast.MatchOr):
+            if all(isinstance(sp, ast.MatchClass) and not sp.patterns and not sp.kwd_patterns for sp in pat.patterns):
+                # `A() | B()` is isinstance(subj, (A, B))
+                atom = ('call', ('name', 'isinstance'), (subj, ('tuple', tuple(('name', ast.unparse(sp.cls)) for sp in pat.patterns))), ())
+                return [([(atom, True)], {})]
+            out = []
+            for sp in pat.patterns:
+                out.extend(self._compile_pattern(sp, subj, env, ev))
+            return out
+        if isinstance(pat, (ast.MatchValue, ast.MatchSingleton)):
+            if isinstance(pat, ast.MatchSingleton) or (isinstance(pat.value, ast.Constant) and isinstance(pat.value.value, bool)):
+                cv = pat.value if isinstance(pat, ast.MatchSingleton) else pat.value.value
+                if isinstance(cv, bool) and subj[0] in ('cmp', 'not', 'boolop', 'call'):
+                    atom, pol = self.norm_test(subj)
+                    return [([(atom, cv == pol)], {})]
+                return [([(('cmp', '==', subj, ('const', cv)), True)], {})]
+            return [([(('cmp', '==', subj, self.expr(pat.value, dict(env), ev)), True)], {})]
+        if isinstance(pat, ast.MatchClass):
+            cname = ast.unparse(pat.cls)
+            cval = self.expr(pat.cls, dict(env), []) if isinstance(pat.cls, ast.Name) and pat.cls.id in env else ('name', cname)
+            atom = ('call', ('name', 'isinstance'), (subj, cval), ())
+            alts = [([(atom, True)], {})]
+            names = self.match_fields(cname)
+            subs = [(names[i] if names and i < len(names) else f'#{i}', sp) for i, sp in enumerate(pat.patterns)]
+            subs += list(zip(pat.kwd_attrs, pat.kwd_patterns))
+            for fld, sp in subs:
+                part = self._compile_pattern(sp, ('attr', subj, fld), env, ev)
+                alts = [(c1 + c2, dict(b1, **b2)) for c1, b1 in alts for c2, b2 in part]
+            return alts
+        if isinstance(pat, ast.MatchSequence) and not any(isinstance(sp, ast.MatchStar) for sp in pat.patterns):
+            n = len(pat.patterns)
+            if subj[0] in ('tuple', 'list') and len(subj[1]) == n and not any(x[0] == 'star' for x in subj[1]):
+                elems, base = list(subj[1]), []
+            elif subj[0] in ('tuple', 'list') and not any(x[0] == 'star' for x in subj[1]):
+                return []                                   # a display of another length never matches
+            else:
+                elems = [('item', subj, i) for i in range(n)]
+                ln = ('call', ('name', 'len'), (subj,), ())
+                base = [(('cmp', '==', ln, ('const', n)), True)]
+            alts = [(list(base), {})]
+            for el, sp in zip(elems, pat.patterns):
+                part = self._compile_pattern(sp, el, env, ev)
+                alts = [(c1 + c2, dict(b1, **b2)) for c1, b1 in alts for c2, b2 in part]
+            return alts
+        raise Decline(f'match pattern {type(pat).__name__}')
+
+    @staticmethod
+    def _ways_to_fail(conds):
+        """the ways a conjunction c1 & .. & ck is false: c1 false | c1 true & c2 false | .."""
+        out = []
+        for i, (c, b) in enumerate(conds):
+            out.append(list(conds[:i]) + [(c, not b)])
+        return out
+
     def _match(self, st: ast.Match, p: PPath) -> list[PPath]:
-        # `case A(x) | B(x): body` with sub-patterns is `case A(x): body` followed by `case B(x): body` (alternatives are tried in order)
-        if any(isinstance(c.pattern, ast.MatchOr) and not all(isinstance(sp, ast.MatchClass) and not sp.patterns and not sp.kwd_patterns
-                                                              for sp in c.pattern.patterns) for c in st.cases):
-            cases = []
-            for c in st.cases:
-                if isinstance(c.pattern, ast.MatchOr):
-                    cases.extend(ast.match_case(pattern=alt, guard=c.guard, body=c.body) for alt in c.pattern.patterns)
-                else:
-                    cases.append(c)
-            st = ast.copy_location(ast.Match(subject=st.subject, cases=cases), st)
         env0 = dict(p.env)
         ev: list = []
         subj = self.expr(st.subject, env0, ev)
         out = []
-        neg: list = []
-        seq_seen: list = []
-        for idx, case in enumerate(st.cases):
-            env = dict(env0)
-            conds = list(neg)
-            pat = case.pattern
-            if isinstance(pat, ast.MatchClass):
-                cname = ast.unparse(pat.cls)
-                # the atom `isinstance(subj, C)` produces; C is evaluated like any expression (`case cls():` with a parameter)
-                cval = self.expr(pat.cls, dict(env), []) if isinstance(pat.cls, ast.Name) and pat.cls.id in env else ('name', cname)
-                atom = ('call', ('name', 'isinstance'), (subj, cval), ())
-                conds.append((atom, True))
-                names = self.match_fields(cname)
-                for i, sp in enumerate(pat.patterns):
-                    if isinstance(sp, ast.MatchAs) and sp.pattern is None:
-                        if sp.name is not None:
-                            fld = names[i] if names and i < len(names) else f'#{i}'
-                            env[sp.name] = ('attr', subj, fld)
-                    else:
-                        raise Decline(f'nested match pattern at line {case.pattern.lineno}')
-                for kw, sp in zip(pat.kwd_attrs, pat.kwd_patterns):
-                    if isinstance(sp, ast.MatchAs) and sp.pattern is None and sp.name:
-                        env[sp.name] = ('attr', subj, kw)
-                    else:
-                        raise Decline('nested match pattern')
-                neg.append((atom, False))
-            elif isinstance(pat, ast.MatchOr) and all(isinstance(sp, ast.MatchClass) and not sp.patterns and not sp.kwd_patterns
-                                                       for sp in pat.patterns):
-                # `case A() | B():` is isinstance(subj, (A, B))
-                atom = ('call', ('name', 'isinstance'), (subj, ('tuple', tuple(('name', ast.unparse(sp.cls)) for sp in pat.patterns))), ())
-                conds.append((atom, True))
-                neg.append((atom, False))
-            elif isinstance(pat, ast.MatchAs) and pat.pattern is None:
-                if pat.name:
-                    env[pat.name] = subj
-            elif isinstance(pat, ast.MatchValue) or isinstance(pat, ast.MatchSingleton):
-                val = self.expr(pat.value, env, ev) if isinstance(pat, ast.MatchValue) else ('const', pat.value)
-                atom = ('cmp', '==', subj, val)
-                conds.append((atom, True))
-                neg.append((atom, False))
-            elif isinstance(pat, ast.MatchSequence) and subj[0] in ('tuple', 'list') and len(subj[1]) == len(pat.patterns) \
-                    and all(isinstance(sp, ast.MatchSingleton) or (isinstance(sp, ast.MatchValue) and isinstance(sp.value, ast.Constant))
-                            or (isinstance(sp, ast.MatchAs) and sp.pattern is None and sp.name is None) for sp in pat.patterns):
-                # `match (a), (b): case False, True: ..`: a conjunction of literal tests on the components.  The negation of a
-                # conjunction is not a conjunction of literals: later cases carry their own positive tests instead (the cases of
-                # such a table are disjoint), and the fall-through path is dropped when the boolean table is exhaustive.
-                combo = []
-                for el, sp in zip(subj[1], pat.patterns):
-                    if isinstance(sp, ast.MatchAs):
-                        combo.append(None)
+        negs: list = [[]]                 # the ways in which no earlier case has matched (each a list of conditions)
+        for case in st.cases:
+            alts = self._compile_pattern(case.pattern, subj, env0, ev)
+            next_negs = []
+            for nc in negs:
+                failed_guard = []
+                for conds, binds in alts:
+                    q0 = PPath(p.conds + nc + conds, [], ('fall',), {})
+                    if not self._feasible(q0):
                         continue
-                    cv = sp.value if isinstance(sp, ast.MatchSingleton) else sp.value.value
-                    if isinstance(cv, bool):
-                        conds.append((el, cv))
-                    else:
-                        conds.append((('cmp', '==', el, ('const', cv)), True))
-                    combo.append(cv)
-                seq_seen.append(tuple(combo))
-            else:
-                raise Decline(f'match pattern {type(pat).__name__}')
-            if case.guard is not None:
-                if seq_seen or isinstance(pat, ast.MatchSequence):
-                    raise Decline('match guard on a sequence pattern')
-                for gconds, truth, genv, gev in self._test(case.guard, dict(env)):
-                    q = self._fork(p, conds + gconds, ev + gev, env=genv if truth else env0)
-                    if truth:
-                        out.extend(self._block(case.body, [q]))
-                    elif st.cases[idx + 1:]:
-                        # the pattern matched but the guard failed: the later cases are tried knowing that
-                        rest = ast.copy_location(ast.Match(subject=st.subject, cases=st.cases[idx + 1:]), st)
-                        out.extend(self._match(rest, q))
-                    else:
-                        out.append(q)
-                if isinstance(pat, ast.MatchAs) and pat.pattern is None:
-                    return out              # `case _ if g:` - the failed-guard continuation above covers the rest
-                continue
-            out.extend(self._block(case.body, [self._fork(p, conds, ev, env=env)]))
-            if isinstance(pat, ast.MatchAs) and pat.pattern is None:
+                    env = dict(env0)
+                    env.update(binds)
+                    if case.guard is None:
+                        out.extend(self._block(case.body, [self._fork(p, nc + conds, ev, env=env)]))
+                        continue
+                    for gconds, truth, genv, gev in self._test(case.guard, dict(env)):
+                        if truth:
+                            out.extend(self._block(case.body, [self._fork(p, nc + conds + gconds, ev + gev, env=genv)]))
+                        else:
+                            failed_guard.append(nc + conds + gconds)
+                # the ways this case does not match under nc: every alternative fails (or matched with a failed guard)
+                ways = [list(nc)]
+                for conds, _b in alts:
+                    if not conds:
+                        ways = []                           # an irrefutable alternative: the case always matches
+                        break
+                    ways = [w + f for w in ways for f in self._ways_to_fail(conds)]
+                    ways = [w for w in ways if self._feasible(PPath(p.conds + w, [], ('fall',), {}))]
+                    if len(ways) > 256:
+                        raise Decline('match statement with too many alternatives')
+                next_negs.extend(ways)
+                next_negs.extend(failed_guard)
+            # drop duplicate / subsumed contexts
+            seen = []
+            for w in next_negs:
+                key = sorted(map(repr, w))
+                if key not in seen:
+                    seen.append(key)
+            uniq = []
+            for w in next_negs:
+                key = sorted(map(repr, w))
+                if key in seen:
+                    seen.remove(key)
+                    uniq.append(w)
+            negs = uniq
+            if not negs:
                 return out
-        if seq_seen:
-            import itertools as _it
-            k = len(seq_seen[0])
-            covered = set()
-            for combo in seq_seen:
-                if all(c is None or isinstance(c, bool) for c in combo):
-                    covered |= set(_it.product(*[[c] if c is not None else [False, True] for c in combo]))
-            if len(covered) == 2 ** k:
-                return out
-        out.append(self._fork(p, neg, ev, env=env0))
+        for nc in negs:
+            q = self._fork(p, nc, ev, env=env0)
+            if self._feasible(q):
+                out.append(q)
         return out
 
     def _bind(self, t, v, env, ev, st):
